@@ -43,3 +43,7 @@ chk('C14','exploration',
  'Differential against filepath.Glob / os.ReadDir / filepath.WalkDir on an identical tree built in lockstep on the kernel (chroot on tmpfs): ~35 patterns per tree (metacharacters, classes, negations, escapes, malformed patterns, relative patterns), ReadDir of every directory, WalkDir from several roots with the callback returning SkipDir / SkipAll / an error at every visit index (exhaustive per tree), and the helpers Exists/DirExists/IsDir/IsEmpty against Stat/ReadDir of the same file system; on MemFS (with symbolic links), OrefaFS, RoFS and FailFS over them, BasePathFS over a rebuilt copy.',
  'lexically clean patterns (unclean spellings, incl. the empty pattern, are defined by Clean() in C01); unreadable directories are exercised through C03',
  'kernel/stdlib differential with exhaustive walk cut-points','DESIGN.md §5 C14')
+chk('C05','exploration',
+ 'Invariant monitors at quiescent points: after every call of long sequential histories with aliasing-biased and invalid operands (root, ., .., empty, ancestor/descendant pairs, multiply-linked destinations, unclean spellings, open handles) on MemFS and OrefaFS, Linux- and Windows-typed, a public-API checker (bounded walk, sorted duplicate-free listings, listed <=> Lstat, Nlink == number of SameFile paths, links agree on content/size/mode/owner), an internal checker through the verif hook (node graph / path index vs stored link counters) and a frame monitor (failed calls change nothing, successful calls change only a footprint computed in the pre-state) are evaluated. The same checkers run at the end of every schedule of C06.',
+ 'directory link counts not checked; composites may leave partial effects on failure; RemoveAll excepted as documented',
+ 'structural invariant hooks + before/after frame monitor','DESIGN.md §5 C05')
